@@ -8,7 +8,7 @@ usage: tools/selfcheck.py [--only C07,C10] [--tier quick] [--also C07:C10,...]
 import argparse, json, os, pathlib, re, subprocess, sys, time
 
 ROOT = pathlib.Path(__file__).resolve().parent.parent
-WT = pathlib.Path('/tmp/vf_selfcheck_wt')
+WT = pathlib.Path(f'/tmp/vf_selfcheck_wt_{os.getpid()}')
 
 
 def sh(*a, **k):
